@@ -506,7 +506,16 @@ def _solve_one(ob, timeout_ms, use_cvc5=True, ex=None):
         s.add(t)
 
     def fn():
+        first = min(timeout_ms, 8000)
+        s.set("timeout", first)
         r = s.check()
+        if r == z3.unknown and timeout_ms > first:
+            # merged path conditions (If-terms over the guards of joined branches) are what the sequence solver
+            # chokes on: split on one path guard; both halves unsat = the obligation is proved
+            if _case_split(terms, 5000):
+                return {"r": "unsat", "how": "case split on a path guard"}
+            s.set("timeout", timeout_ms)
+            r = s.check()
         if r == z3.unknown:
             # the sequence solver is unstable on identical input: retry with other seeds before giving up
             for seed in (7, 1234):
@@ -530,7 +539,7 @@ def _solve_one(ob, timeout_ms, use_cvc5=True, ex=None):
         except BaseException as e:      # noqa
             out = {"r": "unknown", "reason": repr(e)}
     else:
-        out = forked(fn, timeout_ms / 1000.0 + 3.0) or {"r": "unknown", "reason": "hard timeout"}
+        out = forked(fn, timeout_ms / 1000.0 + 55.0) or {"r": "unknown", "reason": "hard timeout"}
     ob.backend = "z3"
     ob.inputs = out.get("inputs")
     if out.get("r") == "unsat":
@@ -570,6 +579,51 @@ def _solve_one(ob, timeout_ms, use_cvc5=True, ex=None):
                 ob.candidate_inputs = out2.get("inputs")
     ob.time = time.time() - t0
     return ob
+
+
+def _path_guards(terms, limit=4):
+    """the most recent branch-guard constants (br!N) occurring in the terms"""
+    seen, found, stack = set(), {}, list(terms)
+    while stack:
+        e = stack.pop()
+        i = e.get_id()
+        if i in seen:
+            continue
+        seen.add(i)
+        if z3.is_const(e) and e.decl().kind() == z3.Z3_OP_UNINTERPRETED and e.sort() == z3.BoolSort():
+            n = e.decl().name()
+            if n.startswith("br!"):
+                found[n] = e
+        elif z3.is_app(e):
+            stack.extend(e.children())
+        elif z3.is_quantifier(e):
+            stack.append(e.body())
+
+    def idx(n):
+        try:
+            return int(n.split("!")[1])
+        except ValueError:
+            return 0
+    return [found[n] for n in sorted(found, key=idx, reverse=True)[:limit]]
+
+
+def _case_split(terms, each_ms):
+    for b in _path_guards(terms):
+        ok = True
+        for lit in (b, z3.Not(b)):
+            s2 = z3.Solver()
+            s2.set("timeout", each_ms)
+            for ax in axioms_for(terms):
+                s2.add(ax)
+            for t in terms:
+                s2.add(t)
+            s2.add(lit)
+            if s2.check() != z3.unsat:
+                ok = False
+                break
+        if ok:
+            return True
+    return False
 
 
 def run_cvc5(smt2, timeout_ms):
